@@ -163,7 +163,7 @@ def apalache(d, module, inv, timeout=900, init="Init", nxt="Stutter", length=0, 
     raise Infra("Apalache failed on %s/%s (rc %d):\n%s" % (module, inv, p.returncode, out[-3000:]))
 
 
-ERR_RE = re.compile(r'<<"LAWBROKEN", (\d+), "([^"]*)", "([^"]*)">>')
+ERR_RE = re.compile(r'<<\s*"LAWBROKEN",\s*(\d+),\s*"([^"]*)",\s*"([^"]*)"\s*>>')  # TLC wraps long tuples over several lines
 COV_RE = re.compile(r'<<"COVERAGE", "(\{.*?\})", (\d+), "SKIPPED", (<<.*>>)>>')
 
 
